@@ -131,7 +131,9 @@ def opApply (m : Msg) (op : Char) (a : AVP) : Msg :=
   match a with
   | .mk c f _ v d =>
     let a' := newAVP c f v d
-    if op = '^' then m.insertAVP a' else m.addAVP a'
+    if op = '^' then m.insertAVP a'
+    else if op = 'M' then { m with hdr := { m.hdr with len := (20 + lenL [a']) % 4294967296 }, avps := [a'] }
+    else m.addAVP a'
 
 /-- `codec build d=<dict> ops=<+^..> <H> <tree> => ser=<hex> hlens=<..> rd=<ok|err|panic..> [<H> <tree>] reser=<hex>` -/
 def judgeBuild (d : DictRt) (ops : String) (h : Header) (as : List AVP) (impl : List String) : Judged :=
@@ -148,7 +150,7 @@ def judgeBuild (d : DictRt) (ops : String) (h : Header) (as : List AVP) (impl : 
     | .ok msg => s!"rd=ok {showHdr msg.hdr} {showAVPs msg.avps} reser={toHex msg.enc}"
     | .err _ => "rd=err"
     | .panic p => s!"rd=panic:{p}"
-  let modelOut := s!"ser={toHex ser} hlens={",".intercalate (hlens.map toString)} {rdOut}"
+  let modelOut := s!"ser={toHex ser} hlens={",".intercalate (hlens.map toString)} wt=same {rdOut}"
   Id.run do
     let mut fails : List String := []
     let mut tags : List String := []
@@ -157,6 +159,12 @@ def judgeBuild (d : DictRt) (ops : String) (h : Header) (as : List AVP) (impl : 
     let implRd := (kv impl "rd").getD ""
     let wf := wfMsg dfn h.flags h.cmd h.app h.hbh h.e2e mFinal.avps
     if implRd.startsWith "panic" ∨ implSer.startsWith "panic" then fails := "C03:panic-build" :: fails
+    -- the image WriteTo puts on the transport is the image Serialize returns
+    match kv impl "wt" with
+    | some w =>
+      if w ≠ "same" then
+        fails := "C02:written-image-differs-from-serialised-image" :: "C01:written-image-not-reproduced-by-read-and-serialise" :: fails
+    | none => pure ()
     if wf then
       tags := "wfmsg" :: tags
       -- C02: independent reference encoder
